@@ -6,9 +6,10 @@ From V Require Import model.ReadBody proofs.ReadBody_proofs gen.Gen_Read corr.Ru
 Import ListNotations.
 
 (* the facts regenerated from the source on this run: read() returns the buffered bytes first; stream() switches to
-   read_chunked only while nothing has been read *)
-Theorem source_facts : Gen_Read.read_all_drains_buffer = Some true /\ Gen_Read.stream_checks_progress = Some true.
-Proof. split; reflexivity. Qed.
+   read_chunked only while nothing has been read; read(amt) flushes the decoder when the body ends *)
+Theorem source_facts : Gen_Read.read_all_drains_buffer = Some true /\ Gen_Read.stream_checks_progress = Some true /\
+  Gen_Read.read_flushes_at_end = Some true.
+Proof. repeat split; reflexivity. Qed.
 Print Assumptions source_facts.
 Lemma rb_sg : rb = true /\ sg = true. Proof. split; reflexivity. Qed.
 
@@ -17,9 +18,9 @@ Lemma rb_sg : rb = true /\ sg = true. Proof. split; reflexivity. Qed.
    bytes otherwise).  read_chunked called directly is covered when nothing is buffered (it ignores the buffer). *)
 Theorem returned_is_prefix : forall D hdc dc raw chunked chunks tape cs f ps fs s1 s2,
   dec_ok D raw ->
-  run_calls D hdc dc rb sg (s0 raw chunks tape) cs = (ps, s1) ->
+  run_calls D hdc dc rb sg fe (s0 raw chunks tape) cs = (ps, s1) ->
   (forall a, f = FReadChunked a -> s_buf s1 = []) -> dc = true \/ f <> FIter ->
-  run_finish D hdc dc rb sg chunked s1 f = (fs, s2) ->
+  run_finish D hdc dc rb sg fe chunked s1 f = (fs, s2) ->
   exists more, target D hdc dc raw = (concat ps ++ concat fs) ++ s_buf s2 ++ more.
 Proof. intros. eapply ReadBody_proofs.returned_is_prefix; eauto. Qed.
 Print Assumptions returned_is_prefix.
@@ -27,8 +28,8 @@ Print Assumptions returned_is_prefix.
 (* a sequence ended by read(), or a preloaded body: the concatenation of the pieces is the payload *)
 Theorem read_returns_everything : forall D hdc dc raw chunked chunks tape cs f ps fs s1 s2,
   dec_ok D raw -> f = FRead \/ f = FData ->
-  run_calls D hdc dc rb sg (s0 raw chunks tape) cs = (ps, s1) ->
-  run_finish D hdc dc rb sg chunked s1 f = (fs, s2) ->
+  run_calls D hdc dc rb sg fe (s0 raw chunks tape) cs = (ps, s1) ->
+  run_finish D hdc dc rb sg fe chunked s1 f = (fs, s2) ->
   concat ps ++ concat fs = target D hdc dc raw.
 Proof. intros. eapply ReadBody_proofs.read_returns_everything; eauto. Qed.
 Print Assumptions read_returns_everything.
@@ -37,9 +38,9 @@ Print Assumptions read_returns_everything.
    (partial: that stream's loop always gets there is exercised by the correspondence, not proved) *)
 Theorem drained_returns_everything_partial : forall D hdc dc raw chunked chunks tape cs f ps fs s1 s2,
   dec_ok D raw ->
-  run_calls D hdc dc rb sg (s0 raw chunks tape) cs = (ps, s1) ->
+  run_calls D hdc dc rb sg fe (s0 raw chunks tape) cs = (ps, s1) ->
   (forall a, f = FReadChunked a -> s_buf s1 = []) -> dc = true \/ f <> FIter ->
-  run_finish D hdc dc rb sg chunked s1 f = (fs, s2) ->
+  run_finish D hdc dc rb sg fe chunked s1 f = (fs, s2) ->
   s_pos s2 = length raw -> s_buf s2 = [] ->
   concat ps ++ concat fs = target D hdc dc raw.
 Proof. intros. eapply ReadBody_proofs.drained_returns_everything; eauto. Qed.
@@ -55,13 +56,13 @@ Print Assumptions read_chunked_returns_everything.
 
 (* read(n) never returns more than n bytes; stream() through read() never yields an empty piece *)
 Theorem read_n_at_most_n : forall D hdc dc raw s n piece s',
-  wf D hdc dc raw s -> read D hdc dc rb s (Some n) = (piece, s') -> length piece <= n.
-Proof. intros D hdc dc raw s n piece s' Hwf H. exact (proj2 (read_n_ok D hdc dc raw s n piece s' Hwf H)). Qed.
+  wf D hdc dc raw s -> read D hdc dc rb fe s (Some n) = (piece, s') -> length piece <= n.
+Proof. intros D hdc dc raw s n piece s' Hwf H. exact (proj2 (read_n_ok D hdc dc fe raw s n piece s' Hwf H)). Qed.
 Print Assumptions read_n_at_most_n.
 
 Theorem stream_pieces_nonempty : forall D hdc dc raw fuel amt s ps s',
-  wf D hdc dc raw s -> stream_loop D hdc dc rb fuel s amt = (ps, s') -> Forall (fun p => p <> []) ps.
-Proof. intros D hdc dc raw fuel amt s ps s' Hwf H. exact (proj2 (stream_loop_ok D hdc dc raw fuel amt s ps s' Hwf H)). Qed.
+  wf D hdc dc raw s -> stream_loop D hdc dc rb fe fuel s amt = (ps, s') -> Forall (fun p => p <> []) ps.
+Proof. intros D hdc dc raw fuel amt s ps s' Hwf H. exact (proj2 (stream_loop_ok D hdc dc fe raw fuel amt s ps s' Hwf H)). Qed.
 Print Assumptions stream_pieces_nonempty.
 
 (* non-vacuity and the source facts at work: a decoder that expands (3 raw bytes -> 6 decoded), read(2) then read():
@@ -69,8 +70,8 @@ Print Assumptions stream_pieces_nonempty.
 Definition toyD : dec := mkDec [0; 2; 4; 6] [1; 2; 3; 4; 5; 6]%N.
 Example toy_ok : dec_ok toyD [7; 8; 9]%N. Proof. split; reflexivity. Qed.
 Example read2_then_read :
-  ReadBody.run toyD true true true true false [7; 8; 9]%N [] [] [CRead (Some 2)] FRead = ([[1; 2]%N], [[3; 4; 5; 6]%N]).
+  ReadBody.run toyD true true true true true false [7; 8; 9]%N [] [] [CRead (Some 2)] FRead = ([[1; 2]%N], [[3; 4; 5; 6]%N]).
 Proof. vm_compute. reflexivity. Qed.
 Example read_must_drain_the_buffer :
-  ReadBody.run toyD true true false true false [7; 8; 9]%N [] [] [CRead (Some 1)] FRead = ([[1]%N], [[3; 4; 5; 6]%N]).   (* byte 2 is lost *)
+  ReadBody.run toyD true true false true true false [7; 8; 9]%N [] [] [CRead (Some 1)] FRead = ([[1]%N], [[3; 4; 5; 6]%N]).   (* byte 2 is lost *)
 Proof. vm_compute. reflexivity. Qed.
